@@ -143,6 +143,10 @@ func (s *Service) handleSubmitSyncCommitteeMessagesError(ctx context.Context,
 			return err
 		}
 		for i := range len(resp.Failures) {
+			if resp.Failures[i] == nil {
+				// Not something we can classify, so not an allowable failure.
+				continue
+			}
 			switch {
 			case strings.HasPrefix(resp.Failures[i].Message, "Verification: PriorSyncCommitteeMessageKnown"):
 				s.log.Trace().Str("provider", provider).Int("index", resp.Failures[i].Index).Msg("Message already received for that slot; ignoring")
@@ -151,7 +155,7 @@ func (s *Service) handleSubmitSyncCommitteeMessagesError(ctx context.Context,
 				s.log.Trace().Str("provider", provider).Int("index", resp.Failures[i].Index).Str("msg", resp.Failures[i].Message).Msg("Real lighthouse error")
 			}
 		}
-		if len(resp.Failures) == allowedFailures {
+		if len(resp.Failures) > 0 && len(resp.Failures) == allowedFailures {
 			s.log.Trace().Str("provider", provider).Msg("Errors from node are allowable; continuing")
 			return nil
 		}
@@ -162,6 +166,10 @@ func (s *Service) handleSubmitSyncCommitteeMessagesError(ctx context.Context,
 			return err
 		}
 		for i := range len(resp.Failures) {
+			if resp.Failures[i] == nil {
+				// Not something we can classify, so not an allowable failure.
+				continue
+			}
 			switch {
 			case resp.Failures[i].Message == "Ignoring sync committee message as a duplicate was processed during validation":
 				s.log.Trace().Str("provider", provider).Str("index", resp.Failures[i].Index).Msg("Message already received for that slot; ignoring")
@@ -170,7 +178,7 @@ func (s *Service) handleSubmitSyncCommitteeMessagesError(ctx context.Context,
 				s.log.Trace().Str("provider", provider).Str("index", resp.Failures[i].Index).Str("msg", resp.Failures[i].Message).Msg("Real teku error")
 			}
 		}
-		if len(resp.Failures) == allowedFailures {
+		if len(resp.Failures) > 0 && len(resp.Failures) == allowedFailures {
 			s.log.Trace().Str("provider", provider).Msg("Errors from Lighthouse node are allowable; continuing")
 			return nil
 		}
